@@ -109,7 +109,7 @@ def reverseContour (c : Contour) : Contour :=
 
 /-! ### DecomposingFilterPointPen driven by decomposeCompositeGlyph -/
 
-inductive GErr | missing (base : String) | recursion | cyclic | valueError | assertion
+inductive GErr | missing (base : String) | recursion | cyclic | valueError | assertion | exception
   deriving DecidableEq, Repr
 
 /-- what drawing one component through the pen stack appends to the output glyph -/
